@@ -1639,6 +1639,75 @@ const KEYS: [&str; 20] = [
     "k1", "k2", "alpha", "Alpha", "a_b", "a-b", "aB", "ab", "label", "0", "ключ", "日本", "x y", "items", "weight", "shortName", "é1", "É1", "ALPHA", "k-1",
 ];
 
+// ---------------- byte-driven construction (libFuzzer target) -------------------------------------
+fn how_b(b: &mut engine::Bytes) -> How {
+    match b.below(14) {
+        0..=5 => How::Direct,
+        6 => How::Anchored,
+        7..=9 => How::Alias,
+        10 | 11 => How::Merge,
+        12 => How::MergeOver,
+        _ => How::MergeAlias,
+    }
+}
+fn sleaf_b(b: &mut engine::Bytes, c: (usize, usize)) -> SLeaf {
+    // one leaf in four violates its constraint
+    let want_bad = b.below(4) == 0;
+    let list: Vec<&str> = STRS.iter().copied().filter(|s| sbad(s, c) == want_bad).collect();
+    let v = if list.is_empty() { "ok".to_string() } else { list[b.below(list.len())].to_string() };
+    SLeaf { v, sty: b.below(3) as u8, how: how_b(b), cmt: b.below(7) == 0 }
+}
+fn nleaf_b(b: &mut engine::Bytes, c: (i64, i64)) -> NLeaf {
+    let want_bad = b.below(4) == 0;
+    let list: Vec<i64> = INTS.iter().copied().filter(|v| nbad(*v, c) == want_bad).collect();
+    let v = if list.is_empty() { 5 } else { list[b.below(list.len())] };
+    NLeaf { v, how: how_b(b), cmt: b.below(7) == 0 }
+}
+fn item_b(b: &mut engine::Bytes) -> ItemD {
+    let label = sleaf_b(b, LABEL);
+    let weight = nleaf_b(b, WEIGHT);
+    let nt = b.below(3);
+    let tags = (0..nt).map(|_| sleaf_b(b, TAG)).collect();
+    let f = b.u8();
+    ItemD { label, weight, tags, flow: f & 3 == 0, tags_flow: f & 4 != 0, whole: f & 0x38 == 0, merge_at: (f >> 6) & 3 }
+}
+fn doc_b(b: &mut engine::Bytes, keys: &[&str]) -> DocD {
+    let short_name = sleaf_b(b, SHORT_NAME);
+    let max_count = nleaf_b(b, MAX_COUNT);
+    let ty = sleaf_b(b, TYPE_);
+    let ab_c = nleaf_b(b, AB_C);
+    let a_bc = nleaf_b(b, A_BC);
+    let host_name = sleaf_b(b, HOST_NAME);
+    let port_no = nleaf_b(b, PORT_NO);
+    let nb = b.below(3);
+    let back_ups = (0..nb).map(|_| item_b(b)).collect();
+    let f = b.u8();
+    let net = NetD { host_name, port_no, back_ups, flow: f & 3 == 0, seq_flow: f & 4 != 0, merge_at: (f >> 3) & 3 };
+    let ni = b.below(4);
+    let items = (0..ni).map(|_| item_b(b)).collect();
+    let nn = b.below(4);
+    let by_name = (0..nn).map(|_| (b.pick(keys).to_string(), item_b(b))).collect();
+    let g = b.u16();
+    DocD {
+        short_name,
+        max_count,
+        ty,
+        ab_c,
+        a_bc,
+        net,
+        items,
+        items_flow: g & 3 == 0,
+        by_name,
+        map_flow: g & 0xc == 0,
+        defs_flow: g & 0x30 == 0,
+        merge_at: ((g >> 6) % 6) as u8,
+        rot: ((g >> 9) & 7) as u8,
+        start_marker: g & 0x1000 != 0,
+        end_marker: g & 0x6000 == 0,
+        lead: ((g >> 13) % 3) as u8,
+    }
+}
+
 fn how_s() -> impl Strategy<Value = How> + Clone + use<> {
     prop_oneof![
         6 => Just(How::Direct),
@@ -1806,6 +1875,24 @@ impl Property for C18 {
             return Err("base document does not read back as its model".into());
         }
         Ok(())
+    }
+    /// libFuzzer input: crate, entry point, options, layout, then 1-4 document descriptions
+    /// (leaves pick values from the same pools as the random tier; one in four violates)
+    fn fuzz_decode(data: &[u8]) -> Option<(&'static str, Case, bool)> {
+        let mut b = engine::Bytes::new(data);
+        let krate = b.pick(&[Krate::Garde, Krate::Validator]);
+        let ep = b.pick(&EPS);
+        let opt = b.pick(&[OptV::Default, OptV::Default, OptV::NoSnippet, OptV::Crop8, OptV::Crop0]);
+        let f = b.u8();
+        let layout = Layout { crlf: f & 3 == 0, step: if f & 4 != 0 { 4 } else { 2 }, seq_indent: f & 8 != 0, cmt_every: [0u8, 0, 2, 3, 5][(f >> 4) as usize % 5], blank: b.below(5) == 0 };
+        let strict = b.bool();
+        let collide = b.below(5) == 0;
+        let keys: &[&str] = if collide { &COLLIDE_KEYS } else { &KEYS };
+        let n = if ep.stream() { 1 + b.below(4) } else { 1 };
+        let docs = (0..n).map(|_| doc_b(&mut b, keys)).collect();
+        let c = Case { krate, ep, opt, layout, docs, strict };
+        let nt = count_classes(&RefCell::new(BTreeMap::new()), &c);
+        Some(("fuzz-documents", c, nt))
     }
     fn generate(ctx: &mut Ctx<Self>) {
         let classes: RefCell<BTreeMap<String, u64>> = RefCell::new(BTreeMap::new());
